@@ -101,7 +101,20 @@ func main() {
 	c := core.NewCtx(id, tier, seed)
 	core.OnHang = func(c *core.Ctx) { os.Exit(c.Finish(ch.Meta(c), start)) }
 	if ch.Run != nil && only == "" {
-		pv, where := core.Catch(func() { ch.Run(c) })
+		// the in-process body runs under the stuck detector: a library call that blocks for ever (waiting for itself, for a
+		// goroutine that was never started, ...) must end the check with a verdict, not hang it
+		var pv any
+		var where string
+		bodyDone := make(chan struct{})
+		go func() { defer close(bodyDone); pv, where = core.Catch(func() { ch.Run(c) }) }()
+		if v, dump := core.AwaitBodyOrStuck(bodyDone, 5*time.Second, 6*time.Hour, c.Evals); v == "stuck" {
+			top := "?"
+			if sum := core.RepoGoroutineSummary(dump); len(sum) > 0 {
+				top = sum[len(sum)-1]
+			}
+			c.Violationf("blocked-forever:"+top, map[string]any{"goroutines": core.RepoGoroutineSummary(dump)},
+				"a library call made by the check never returns: no case was evaluated for 5 s and no goroutine of the process is running, runnable or sleeping (blocked: %v)", core.RepoGoroutineSummary(dump))
+		}
 		if pv != nil {
 			c.Inconclusive(fmt.Sprintf("harness panic outside a guarded call: %v at %s", pv, where))
 		}
